@@ -239,6 +239,11 @@ class Session:
             self.w = res["w"].copy()
             if res["Xw_buf"] is not None and res.get("same_object"):
                 self.Xw = res["Xw_buf"].copy()
+            elif res["Xw_buf"] is not None and res.get("w_buf") is not None \
+                    and self.solver_name in B.RETURNS_CALLER_W and self.solver_name != "GramCD":
+                # a solver documented to update w_init / Xw_init in place: the client goes on
+                # with *its own two arrays*, as a hand-written path or warm-start loop does
+                self.w, self.Xw = res["w_buf"].copy(), res["Xw_buf"].copy()
             else:
                 self.Xw = None
         elif res.get("w_buf") is not None:
